@@ -94,6 +94,12 @@ BYPASS_POOL = ['1e5', '1E5', '1e-3', '2.5e+2', 'inf', '-inf', '+inf', 'infinity'
                '2.', '5.', '1,2', '１', '٣', 'true', '1f64', '1i', '1u8', '1/', '@@', '1@', '@1', 'π2', '2π', 'ee', '1ee']
 
 
+# well-formed inputs with values that a post-processing step of a public function would be likely to change (whole-valued floats,
+# signed zeros, non-finite values, boundaries): the public function must return what ast::eval returns on the parsed tree
+VALUE_POOL = ['0.5*4', '-0.0', '0*-1', '-0', '2.0', '7', '@', '1/3', '1/0', '-1/0', '0/0', '2^63', '2^64', '-2^63', '9007199254740993', '9223372036854775807', '0.1+0.2', '1.10*3', '3!', 'pi', 'e',
+              '2^0.5', '10/4', '4/2', '1.50', '1.0*1.0', '100*0.01', 'i*i', '2i', '1/3*3', '(-8)^(1/3)', '5%3', '-5%3', '7/7', '0.0', '1e', '2^-1', '2^(0-1)', 'abs(-0.0)', 'sqrt(4)', 'floor(2.5)', 'round(-0.4)']
+
+
 class PipelineOb(Obligation):
     """mod.rs of one evaluator from MIR with Parser::new, Parser::parse and ast::eval replaced by nondeterministic stubs (each
     answers Ok(fresh) or Err(fresh)): the public function is exactly  eval(parse(new(strip(input), Some(placeholder)))) -
@@ -188,6 +194,17 @@ class PipelineOb(Obligation):
                     res['replayed'] += 1
                     if st1 in ('PANIC', 'TIMEOUT') or (st1 == 'OK' and st2 != 'OK'):
                         found = (s, st1 + ' ' + pl1[:120], st2 + ' ' + pl2[:80]); break
+            if not found and out[0] in ('ok', 'err'):
+                # inputs on which the public function and eval(parse(input)) called directly give different answers
+                ph_txt = {'i64': '7', 'f64': native.f64_bits_str(7.0), 'number': 'I7', 'decimal': 'd7', 'complex': 'c%s,%s' % (native.f64_bits_str(7.0), native.f64_bits_str(0.0))}[ev]
+                for s in VALUE_POOL:
+                    st2, tree, _ = runner.request('PARSE', ev, ph_txt, native.esc(s))
+                    if st2 != 'OK': continue
+                    st3, direct, _ = runner.request('AST', ev, tree)
+                    st1, pl1, _ = runner.request('EVAL', ev, ph_txt, native.esc(s))
+                    res['replayed'] += 1
+                    if st3 in ('OK', 'ERR') and (st1 != st3 or (st1 == 'OK' and pl1 != direct)):
+                        found = (s, st1 + ' ' + pl1[:120], 'a tree on which ast::eval called directly gives ' + st3 + ' ' + direct[:80]); break
             if found:
                 res['confirmed'].append(dict(input=found[0], native=found[1], what='%s; natively the parser alone answers %s' % (what, found[2]), profile=profile, obligation=self.name,
                                              key='%s|pipeline|%s' % (ev, what[:60]), request=['EVAL', ev, 'default', native.esc(found[0])]))
